@@ -731,17 +731,37 @@ func ruleR19_8(w *World, r *Report) {
 		r.Lost(fmt.Sprintf("patchEach: the operations on the resolved parent (found %d)", len(actInstrs)))
 		return
 	}
+	for _, a := range actInstrs {
+		acts[a.Block()] = true
+	}
 	n := 0
 	forEachInstr(fn, func(in ssa.Instruction) {
+		// the returns of patchEach and of the new helpers whose result it returns unchanged
 		ret, ok := in.(*ssa.Return)
-		if !ok || ret.Parent() != fn || ret.Block().Comment == "recover" || definiteErrorExit(fn, ret) {
+		if !ok || ret.Block().Comment == "recover" || definiteErrorExit(ret.Parent(), ret) {
 			return
 		}
 		n++
-		paths, okp := pathsWithBlocks(fn, nil, ret.Block())
+		paths, okp := pathsWithBlocks(ret.Parent(), nil, ret.Block())
 		good := okp && len(paths) > 0
 		why := ""
+		// a return inside a new helper: what the caller had established when it called the helper
+		var callerLits [][]Lit
+		if g := ret.Parent(); g != fn && flattenable[g] && len(helperSites[g]) == 1 {
+			callerLits, _ = reachingLits(fn, nil, helperSites[g][0])
+		}
 		for _, p := range paths {
+			if len(callerLits) > 0 {
+				feasible := false
+				for _, cl := range callerLits {
+					if !contradictoryLits(append(append([]Lit{}, cl...), p.Lits...)) {
+						feasible = true
+					}
+				}
+				if !feasible {
+					continue
+				}
+			}
 			// error exits that share this return (a returned err variable tested non-nil) are not judged here
 			isErr := false
 			for _, l := range p.Lits {
@@ -1069,5 +1089,10 @@ func ruleR09_13(w *World, r *Report) {
 // isRangeLoopLit: the continuation test of a range loop (an integral comparison on the hidden loop index).
 func isRangeLoopLit(l Lit) bool {
 	lc, ok := canonLinCmp(l)
-	return ok && strings.Contains(lc.String(), "rangeindex")
+	if !ok {
+		return false
+	}
+	str := lc.String()
+	// the hidden index of a range loop, or a written index compared with a length
+	return strings.Contains(str, "rangeindex") || (strings.Contains(str, "φ") && strings.Contains(str, "len("))
 }
